@@ -421,7 +421,8 @@ func runC02(w *World, pi interface{}) {
 	case "srv-session":
 		// an established session on a real Server, then hostile frames on the wire
 		h := &History{}
-		conf := SrvConf{Transport: p.Trans, Comp: []string{"none"}, Enc: []string{"none"}, Schemes: []string{"guest"}, Full: true, Buf: 2}
+		// (AutoReplyPings in every other plan: its handler predicate looks into each request command)
+		conf := SrvConf{Transport: p.Trans, Comp: []string{"none"}, Enc: []string{"none"}, Schemes: []string{"guest"}, Full: true, Buf: 2, AutoPing: len(p.Frames)%2 == 0}
 		sut, err := StartSUT(w, h, conf, 7710)
 		if err != nil {
 			return
